@@ -3,3 +3,4 @@ import Absnfs.Xdr
 import Absnfs.Rpc
 import Absnfs.RecordMark
 import Absnfs.Access
+import Absnfs.Auth
